@@ -13,7 +13,7 @@ PROP = 'C08'
 
 ATOMS = [
     'a', 'a-b', '<=', ':kw', '12', '1.5', '#b01', '#xA', '"s"', '""',
-    '"a""b"', '"a"""', '"a b"', '"("', '")"', '";"', '"|"', '"x\ny"', '|q|',
+    '"a""b"', '"a"""', '"a b"', '"("', '")"', '";"', '"|"', '"x\ny"', '"a\\"', '"\\"', '|q|',
     '|q r|', '|q\nr|', '|(|', '|)|', '|;|', '|"|', '||'
 ]
 COMPOUND = ['()', '(a)', '(a b)', '((a))']
@@ -22,7 +22,7 @@ ITEMS = ATOMS + COMPOUND + COMMENTS
 
 # reduced alphabet for the longest sequences of the quick tier
 ITEMS_SMALL = [
-    'a', '12', '"s"', '"a""b"', '"("', '|q r|', '|;|', '()', '(a)', ';c', ';'
+    'a', '12', '"s"', '"a\\"', '"a""b"', '"("', '|q r|', '|;|', '()', '(a)', ';c', ';'
 ]
 
 SEPS_FULL = [' ', '\t', '\n', '\r', '\r\n', '  ']
